@@ -30,7 +30,22 @@ def attention_model(p):
             if p.get("proj_bias"):
                 y = g.op("Add", [y, g.const(rs.standard_normal((D,)) * 0.3, dt, name=f"b_{nm}")])
             return y
-        q, k, v = proj("q"), proj("k"), proj("v")
+        if p.get("packed"):
+            # one MatMul against the packed weight [D, 3D], sliced on the last axis; biases added to the slices
+            wq = g.const(rs.standard_normal((D, 3 * D)) * 0.3, dt, name="w_qkv")
+            pr = g.op("MatMul", [x, wq], out="projected")
+            ax = g.const([2], "int64")
+            e3 = p.get("slice_end", 3 * D)
+            bounds = p.get("slice_bounds", [(0, D), (D, 2 * D), (2 * D, e3)])
+
+            def sl(nm, lo, hi):
+                y = g.op("Slice", [pr, g.const([lo], "int64"), g.const([hi], "int64"), ax], out=f"{nm}_sliced")
+                if p.get("proj_bias"):
+                    y = g.op("Add", [y, g.const(rs.standard_normal((D,)) * 0.3, dt, name=f"b_{nm}")])
+                return y
+            q, k, v = (sl(nm, lo, hi) for nm, (lo, hi) in zip("qkv", bounds))
+        else:
+            q, k, v = proj("q"), proj("k"), proj("v")
         Skv = S
         Skd = Sd
     else:
